@@ -673,6 +673,7 @@ func runC01(c *Ctx) {
 	rulePayloadStores(c, "R01.e")
 	ruleIsNilMeansNull(c, "R01.e")
 	ruleConstructors(c)
+	ruleReentrantScratch(c, "R01.g", c.P.parserScope())
 	c.assume("bytes.Buffer and strconv behave as documented")
 }
 
